@@ -81,6 +81,11 @@ class Blocked(Exception):
     pass
 
 
+class VirtualArr:
+    """heap content of a byte slice whose contents are not materialised (only offsets and lengths flow)"""
+    __slots__ = ()
+
+
 class ProtoCell:
     """the single 'byte' of the slice returned by proto.Marshal: remembers the message (round-trip contract);
     alts = ((guard, dyntype|None, value), ...), dyntype None = bytes that do not decode"""
@@ -310,6 +315,15 @@ class Engine:
         if k == 'tuple':
             return tuple(self.merge_val(c, x, y, et, ha, hb, hn) for x, y, et in zip(a, b, d['elems']))
         if k == 'slice':
+            if a.obj == b.obj and (is_sym(a.off) or is_sym(b.off) or is_sym(a.cap) or is_sym(b.cap)):
+                # views of an unmaterialised array: offsets / lengths / capacities merge as integers
+                return SliceV(a.obj, ite_int(c, a.off, b.off, 64), ite_int(c, a.len, b.len, 64), ite_int(c, a.cap, b.cap, 64),
+                              ite_bool(c, a.nil, b.nil))
+            if (a.obj is None or b.obj is None) and (isinstance(ha.get(a.obj), VirtualArr) or isinstance(hb.get(b.obj), VirtualArr)):
+                # nil slice merged with a view of an unmaterialised array
+                o = a.obj if a.obj is not None else b.obj
+                return SliceV(o, ite_int(c, a.off, b.off, 64), ite_int(c, a.len, b.len, 64), ite_int(c, a.cap, b.cap, 64),
+                              ite_bool(c, a.nil, b.nil))
             if a.obj == b.obj and a.off == b.off:
                 return SliceV(a.obj, a.off, ite_int(c, a.len, b.len, 64), max(a.cap, b.cap), ite_bool(c, a.nil, b.nil))
             if hn is None:
@@ -1323,6 +1337,11 @@ class Engine:
             return SliceV(obj, lo, hi - lo, len(arr) - lo)
         if isinstance(x, SliceV):
             hi = self.val(st, ins['high']) if ins['high'] else x.len
+            if x.obj is not None and isinstance(st.heap.get(x.obj), VirtualArr):
+                # unmaterialised contents: only offsets / lengths flow (64-bit arithmetic), bounds are obligations
+                l64, h64, c64 = to_bv(lo, 64), to_bv(hi, 64), to_bv(x.cap, 64)
+                self.panic(st, sb(z3.Not(z3.And(z3.ULE(l64, h64), z3.ULE(h64, c64)))), 'slice-bounds')
+                return SliceV(x.obj, si(to_bv(x.off, 64) + l64), si(h64 - l64), si(c64 - l64), False)
             if is_sym(lo) or is_sym(hi):
                 raise Unsupported('symbolic reslice')
             return SliceV(x.obj, x.off + lo, hi - lo, x.cap - lo)
@@ -1332,6 +1351,11 @@ class Engine:
         return ins['call']['args'][k]['t']
 
     def builtin(self, st, name, args, ins):
+        if name == 'cap':
+            x = args[0]
+            if isinstance(x, SliceV):
+                return x.cap
+            raise Unsupported('cap')
         if name == 'len':
             x = args[0]
             if isinstance(x, (bytes, SymStr, ChoiceStr)):
@@ -1684,6 +1708,15 @@ def i_md_from_incoming(e, st, a, i):
     if e.incoming_md is None:
         return (MapV(((True, None),)), False)
     return (e.incoming_md, True)
+
+
+def i_nondet_bytes_len(e, st, a, i):
+    """verifrt.NondetBytesLen(name, maxLen): a []byte of symbolic length <= maxLen with unmaterialised contents"""
+    name, maxlen = a[0].decode(), a[1]
+    n = nondet(e, st, [a[0]], i, lambda nm_: z3.BitVec(nm_, 64))
+    e.solver.add(z3.ULE(n, maxlen))
+    obj = e.new_obj(st, VirtualArr(), None)
+    return SliceV(obj, 0, n, n, False)
 
 
 def i_havoc_state(e, st, a, i):
@@ -2167,6 +2200,7 @@ INTRINSICS = {
     'github.com/onosproject/onos-config/internal/verifrt.Fork': i_fork,
     'github.com/onosproject/onos-config/internal/verifrt.Region': i_region,
     'github.com/onosproject/onos-config/internal/verifrt.HavocState': i_havoc_state,
+    'github.com/onosproject/onos-config/internal/verifrt.NondetBytesLen': i_nondet_bytes_len,
     'github.com/onosproject/onos-config/internal/verifrt.Symbolic': lambda e, st, a, i: True,
     'github.com/onosproject/onos-config/internal/verifrt.NondetInt32': lambda e, st, a, i: nondet_signed(e, st, a, i, 32),
     'github.com/onosproject/onos-config/internal/verifrt.Assume': lambda e, st, a, i: setattr(st, 'pc', e.name(sb(And(st.pc, a[0])))),
